@@ -78,6 +78,10 @@ type HistoryCase struct {
 	GenCfg  string `json:"gen"`
 	Fresh   string `json:"fresh_digest"`
 	History string `json:"history_digest"`
+	// explicit form (variant check): compile Before, then Target, in one process
+	Before *ProgramJSON `json:"before,omitempty"`
+	Target *ProgramJSON `json:"target,omitempty"`
+	Edit   string       `json:"edit,omitempty"`
 }
 
 func replayHistory(rp *Replay) int {
@@ -85,6 +89,27 @@ func replayHistory(rp *Replay) int {
 	if hc == nil {
 		fmt.Println("REPLAY: malformed file (no history case)")
 		return 2
+	}
+	if hc.Target != nil {
+		before, err1 := hc.Before.ToProgram()
+		target, err2 := hc.Target.ToProgram()
+		if err1 != nil || err2 != nil {
+			fmt.Println("REPLAY: malformed programs")
+			return 2
+		}
+		fresh, err := freshDigest(target)
+		if err != nil {
+			fmt.Println("REPLAY:", err)
+			return 2
+		}
+		inProcessDigest(before)
+		after := inProcessDigest(target)
+		if after != fresh {
+			fmt.Printf("REPLAY: violation class=process_history_dependence: the edited bundle (%s) compiles to %s in a fresh process but to %s in a process that compiled the original bundle first\n", hc.Edit, fresh, after)
+			return 1
+		}
+		fmt.Println("REPLAY: no violation (the edited bundle compiles identically with and without the earlier compilation)")
+		return 0
 	}
 	// fresh digest from the current tree: a child process that compiles only the target
 	cmd := exec.Command(os.Args[0], "-mode", "refdigest", "-seed", fmt.Sprint(rp.MasterSeed), "-gen", hc.GenCfg, "-indices", fmt.Sprint(hc.Index))
@@ -243,6 +268,32 @@ func main() {
 	case "replay":
 		os.Exit(runReplay(*file))
 	case "refdigest":
+		if *file != "" {
+			// digest of one explicit program, computed first thing in this (fresh) process
+			b, err := os.ReadFile(*file)
+			res := map[string]string{}
+			var pj ProgramJSON
+			if err == nil {
+				err = json.Unmarshal(b, &pj)
+			}
+			if err == nil {
+				var p *Program
+				if p, err = pj.ToProgram(); err == nil {
+					d := inProcessDigest(p)
+					if strings.HasPrefix(d, "error:") {
+						res["error"] = strings.TrimPrefix(d, "error:")
+					} else {
+						res["digest"] = d
+					}
+				}
+			}
+			if err != nil {
+				res["error"] = err.Error()
+			}
+			ob, _ := json.Marshal(res)
+			os.Stdout.Write(ob)
+			return
+		}
 		// compute only the reference outputs of the listed program indices, in that order, in this
 		// process: the driver compares the digests with those obtained under other process histories
 		out := map[string]string{}
@@ -293,6 +344,9 @@ func main() {
 }
 
 var skipIdx = map[int]bool{}
+
+// variantBudget bounds the child processes a worker spawns for variant checks.
+var variantBudget = 40
 
 func runWorker(master uint64, worker, workers, execs, maxProgs int, budget float64, cfgName string, detlog bool, replayDir string, outPath string) *WorkerResult {
 	start := time.Now()
@@ -369,6 +423,25 @@ func runWorker(master uint64, worker, workers, execs, maxProgs int, budget float
 				rp = minimise(p, rp)
 				rp.FindingKey = findingKey(rp)
 				res.Violations = append(res.Violations, rp)
+			}
+		}
+		// variant check: an edited revision of this bundle, compiled now (after everything above),
+		// must give what a fresh process gives
+		if variantBudget > 0 && simrt.Derive(progSeed, 0x7a7)%4 == 0 && !seenKeys["process_history_dependence"] {
+			if vp, edit := variantOf(p, progSeed); vp != nil {
+				variantBudget--
+				here := inProcessDigest(vp)
+				fresh, err := freshDigest(vp)
+				stats.Probes["variant_checks"]++
+				if err == nil && strings.HasPrefix(fresh, "error:") {
+					stats.Probes["variant_does_not_compile"]++
+				} else if err == nil && here != fresh {
+					seenKeys["process_history_dependence"] = true
+					res.Violations = append(res.Violations, &Replay{Property: "C14", MasterSeed: master, ProgIndex: idx, ExecIndex: -1, Minimised: true,
+						FindingKey: "process_history_dependence",
+						Violation: &Violation{Class: "process_history_dependence", OpIndex: -1, Detail: fmt.Sprintf("edited bundle (%s): digest %s in a fresh process, %s in the process that compiled the original first", edit, fresh, here)},
+						History:   &HistoryCase{Index: idx, GenCfg: cfgName, Fresh: fresh, History: here, Before: p.ToJSON(), Target: vp.ToJSON(), Edit: edit}})
+				}
 			}
 		}
 		// uncontrolled nondeterminism: the reference itself, recomputed after
